@@ -186,7 +186,8 @@ func (g *projGen) method(ci, mi int, prefixParams []string, types []pType, file 
 		}
 		m.Results = []string{vt, "error"}
 		if r.Chance(1, 3) {
-			m.Annots = append(m.Annots, pAnnot{Name: "Response", Value: rng.Pick(r, []string{"200", "201"}), Desc: "ok"})
+			// the annotated code only relabels the success response: a returned value is documented under 204 as well
+			m.Annots = append(m.Annots, pAnnot{Name: "Response", Value: rng.Pick(r, []string{"200", "201", "204", "202"}), Desc: "ok"})
 		}
 	} else {
 		m.Results = []string{"error"}
@@ -626,6 +627,7 @@ func genProject(r *rng.R, nPerturb int) (pProject, []string) {
 		p.Controllers[0].Methods = append(p.Controllers[0].Methods, gm)
 	}
 	p.Config.EnumValidator = r.Chance(1, 3)
+	p.Config.TopLevelEnum = r.Chance(1, 3)
 	p.GroupParams = r.Chance(1, 3)
 	if p.GroupParams {
 		// (from, to, cursor string, limit int): three names in one declaration followed by another parameter
